@@ -203,6 +203,53 @@ def hyp_minimise(strategy, predicate, n, seed_value, budget_s=240):
     return min(hits, key=lambda c: len(json.dumps(jsonable(c), default=str)))
 
 
+def run_fuzz_part(res, pid, entry, runs, seed_value, shard, max_len=4096, timeout=3000):
+    """One libFuzzer process (atheris) on the check's Hypothesis test; empty corpus in a temp dir that is removed."""
+    import shutil
+    import subprocess
+    import tempfile
+
+    if not os.path.isdir(os.path.join(VERIF_DIR, ".deps", "atheris")):
+        # normally done by MANIFEST.setup_cmd; offline install from the wheelhouse
+        subprocess.run([sys.executable, "-m", "pip", "install", "--no-index", "--find-links", "/opt/veriftools/wheels", "--target",
+                        os.path.join(VERIF_DIR, ".deps"), "atheris"], capture_output=True)
+    td = tempfile.mkdtemp(prefix="vpbt_fuzz_")
+    try:
+        corpus = os.path.join(td, "corpus")
+        os.makedirs(corpus)
+        env = dict(os.environ)
+        cmd = [sys.executable, "-m", "vpbt.fuzz.target", pid, entry, td, corpus, f"-runs={int(runs)}", f"-seed={seed_value * 16 + shard + 1}",
+               f"-max_len={max_len}", "-len_control=0", f"-artifact_prefix={td}/", "-print_final_stats=1"]
+        p = subprocess.run(cmd, capture_output=True, text=True, cwd=VERIF_DIR, env=env, timeout=timeout)
+        st = {}
+        if os.path.exists(os.path.join(td, "stats.json")):
+            st = json.load(open(os.path.join(td, "stats.json")))
+        execs = 0
+        for line in p.stderr.splitlines():
+            if line.startswith("stat::number_of_executed_units:"):
+                execs = int(line.split(":")[-1])
+        res.evaluations += execs or st.get("execs", 0)
+        res.oracle_evals += st.get("execs", 0)
+        for k, v in st.get("labels", {}).items():
+            res.labels["fuzz:" + k] += v
+        res.labels["fuzz:executions"] += execs or st.get("execs", 0)
+        for i, d in enumerate(st.get("digests", [])):
+            res.nontrivial.add(digest(("fuzz", shard, i, d)))
+            if len(res.samples) < 2:
+                res.samples.append(d)
+        vf = os.path.join(td, "violation.json")
+        if os.path.exists(vf):
+            v = json.load(open(vf))
+            sg = signature(v["violation"])
+            res.found[sg] = {"violation": v["violation"], "case": v["case"], "count": 1, "size": len(json.dumps(v["case"], default=str)),
+                             "part": res.part}
+        elif p.returncode != 0:
+            raise RuntimeError(f"fuzz target failed (exit {p.returncode}): {p.stderr[-1500:]}")
+    finally:
+        shutil.rmtree(td, ignore_errors=True)
+    return res
+
+
 class time_limit:
     """Per-case wall-clock watchdog. A hit only ever marks the case inconclusive."""
 
